@@ -85,7 +85,7 @@ def facts_dir(cfg: str) -> str:
 def prune_cache(keep: str):
     """Keep the cache small: only the current tree hash and the most recent other one."""
     try:
-        ents = [e for e in os.listdir(CACHE) if e != keep and os.path.isdir(os.path.join(CACHE, e))]
+        ents = [e for e in os.listdir(CACHE) if e not in (keep, 'bb') and os.path.isdir(os.path.join(CACHE, e))]
         ents.sort(key=lambda e: os.path.getmtime(os.path.join(CACHE, e)))
         for e in ents[:-2]:
             shutil.rmtree(os.path.join(CACHE, e), ignore_errors=True)
